@@ -99,12 +99,30 @@ class ContainerValidate(Contract):
             return r
 
         I.models[id(B.run_parsers)] = run_parsers
-        I.models[id(B.collect_column_info)] = lambda I, s, obj, schema: SAny(name="column_info")
-        I.models[id(B.collect_schema_components)] = lambda I, s, obj, schema, ci: SAny(name="components")
+        def column_info(I, s, obj, schema):
+            # ColumnInfo describes the columns of the table it is computed from AT THAT MOMENT (parsers add / remove columns, some in place)
+            p = cur()
+            ci = SAny(name=f"column_info#{len(p.ghost.setdefault('column_infos', []))}")
+            p.ghost["column_infos"].append((ci, obj, len(p.ghost.get("calls", []))))
+            return ci
+
+        def fresh_info(ci, obj):
+            p = cur()
+            return any(c is ci and o is obj and n == len(p.ghost.get("calls", [])) for c, o, n in p.ghost.get("column_infos", []))
+
+        def components(I, s, obj, schema, ci):
+            cur().check(fresh_info(ci, obj), f"{DF}.validate/pre@collect_schema_components.column_info_describes_the_parsed_table",
+                        note="the ColumnInfo was computed before a parser that may add or remove columns")
+            return SAny(name="components")
+
+        I.models[id(B.collect_column_info)] = column_info
+        I.models[id(B.collect_schema_components)] = components
 
         def rcahe(I, self_obj, error_handler, schema, check_obj, column_info, sample, components, lazy, head, tail, random_state):
             p = cur()
             p.ghost["checked"] = check_obj
+            p.check(fresh_info(column_info, check_obj), f"{DF}.validate/pre@run_checks_and_handle_errors.column_info_describes_the_parsed_table",
+                    note="the ColumnInfo was computed before a parser that may add or remove columns")
             p.ghost["check_options"] = (sample, lazy, head, tail, random_state)
             # core checks may offer any number of errors: eager -> the first is raised; SchemaDefinitionError from a check
             k = p.choose([("no_error", None), ("errors", None), ("SchemaDefinitionError", None)], "core_checks")
